@@ -191,6 +191,7 @@ fn run_case_inner(c: &Case) -> RunResult {
     rec::begin_case();
     exec::CALLS.store(0, Ordering::SeqCst);
     exec::CONSUMED.store(0, Ordering::SeqCst);
+    exec::RED_CALLS.store(0, Ordering::SeqCst);
     *exec::PANIC_AT.lock().unwrap() = c.panic_at;
     match &c.mode {
         Mode::Free(j) => {
